@@ -10,3 +10,5 @@ import ChiaModel.Props.C11
 #print axioms ChiaModel.C11.sanitizeUint_err
 #print axioms ChiaModel.C11.sanitizeUint_pos
 #print axioms ChiaModel.C11.encodeNumber_nonneg
+#print axioms ChiaModel.C11.canon_unique
+#print axioms ChiaModel.C11.sanitizeUint_canon
